@@ -241,6 +241,39 @@ Proof.
     rewrite after_attrs_length; [reflexivity | exact Hl1 | congruence].
 Qed.
 
+(* as struct_rt_parts, for ANY interleaving of the children that keeps each field's own sequence *)
+Lemma struct_rt_parts_any : forall d vs,
+  field_conds sch (tyok sch n') (struct_fields d) = true ->
+  fields_all (wf sch n') (zero_like sch n') (struct_fields d) vs = true ->
+  exists al ess,
+    marshal_attrs sch (struct_fields d) vs = Ok al
+    /\ (forall m0, (n' <= m0)%nat ->
+          marshal_children sch (marshal sch m0) (struct_fields d) vs = Ok (List.concat ess))
+    /\ (forall m0 bs N t kids', (n' <= m0)%nat ->
+          (String.eqb (xmlname_tag d) "" || String.eqb (xmlname_tag d) N) = true ->
+          fields_all (zero_like sch n') (zero_like sch n') (struct_fields d) bs = true ->
+          same_per_field sch (struct_fields d) (List.concat ess) kids' ->
+          unmarshal_struct sch (unmarshal sch FUEL m0) d (VStruct bs) (Elem N al kids' t)
+          = Ok (VStruct vs)).
+Proof.
+  intros d vs Hfc Hwf. unfold field_conds in Hfc.
+  apply andb_true_iff in Hfc. destruct Hfc as [Hfc Hconds]. apply andb_true_iff in Hfc. destruct Hfc as [Hfc Hpo].
+  apply andb_true_iff in Hfc. destruct Hfc as [Hfc Hndk]. apply andb_true_iff in Hfc. destruct Hfc as [Hsup Hnda].
+  set (fs := struct_fields d) in *.
+  destruct (attrs_exist fs vs Hsup Hconds Hwf) as [al Hal].
+  destruct (children_rt fs vs Hconds Hpo Hwf) as [ess [Hkids Hf3]].
+  exists al, ess. split; [exact Hal | split; [exact Hkids|]].
+  intros m0 bs N t kids' Hm0 Hxn Hz Hsame.
+  pose proof (fields_all_length _ _ _ _ Hwf) as Hl1. pose proof (fields_all_length _ _ _ _ Hz) as Hl2.
+  replace (Ok (VStruct vs)) with (@Ok value (VStruct (after_kids fs vs (after_attrs fs vs bs))))
+    by (rewrite (final_eq fs vs bs Hsup Hconds Hwf Hz); reflexivity).
+  apply unmarshal_struct_fieldwise with (st1 := after_attrs fs vs bs); try assumption.
+  + cbn [xattrs]. apply attrs_roundtrip; [exact Hal | exact Hnda | exact (attrs_rt_all fs vs bs Hconds Hwf Hz)].
+  + cbn [xkids]. apply (absorb_same_per_field sch _ (List.concat ess) kids'); [exact Hsame|].
+    apply kids_roundtrip; [exact Hndk | exact (kids_hyp m0 fs vs bs ess Hm0 Hf3 Hz)|].
+    rewrite after_attrs_length; [reflexivity | exact Hl1 | congruence].
+Qed.
+
 Lemma struct_rt : forall ty d vs fi tmpl nm,
   field_conds sch (tyok sch n') (struct_fields d) = true ->
   (String.eqb (xmlname_tag d) "" || String.eqb (xmlname_tag d) nm) = true ->
